@@ -6,8 +6,9 @@
 //	pair <kind> <limit> <passes> <tags> <chosen> <cancel> [<eof layout 0..3>]
 //
 // kind: uri uripost raw jsonl jsona. <tags>: comma separated tag id of every entry of the file
-// (0 = untagged, t => "t<t>"). <chosen>: "-" (no filter) or comma separated tag ids (may repeat,
-// may name tags that do not occur). <cancel>: "-" or the number of items after which the context
+// (0 = untagged, t => "t<t>"; "-" = a file without entries). <chosen>: "-" (no filter) or comma
+// separated tag ids (may repeat, may name tags that do not occur, may contain 0 = the empty tag,
+// which selects the untagged entries). <cancel>: "-" or the number of items after which the context
 // is cancelled (always set when limit=passes=0 and something matches).
 //
 // Both providers (preload off and on) are built from the same file by the public constructor
@@ -80,7 +81,7 @@ func runOne(kind string, preload bool, limit, passes int, es []a08.Entry, chosen
 	}()
 	b, err := a08.BuildEOF(kind, preload, limit, passes, es, chosen, eof)
 	if err != nil {
-		return "0 - blocked construct"
+		return "0 - closed construct" // the constructor refused the file
 	}
 	b.Ident = b.Full
 	return obsString(a08.Observe(b, 1, cancel, limit+passes*len(es)+1000))
@@ -137,7 +138,7 @@ func matches(tags, chosen []int) int {
 	n := 0
 	for _, t := range tags {
 		for _, c := range chosen {
-			if c == t && t != 0 {
+			if c == t {
 				n++
 				break
 			}
@@ -158,7 +159,7 @@ func gen(r *vh.Rand, tier string) []string {
 		out = append(out, fmt.Sprintf("pair %s %d %d %s %s %s %d", kind, limit, passes, joinInts(tags), joinInts(chosen), cancel, len(out)%a08.EOFLayouts))
 	}
 	files := [][]int{{1}, {2, 1, 1}, {1, 2, 1, 2}, {1, 0, 2, 1, 3}, {11, 1, 4, 1}, {3, 1, 2, 2, 1, 3}}
-	filters := [][]int{nil, {1}, {2}, {2, 1}, {1, 2, 1}, {9}, {3, 9, 1}, {11}, {4, 2}}
+	filters := [][]int{nil, {1}, {2}, {2, 1}, {1, 2, 1}, {9}, {3, 9, 1}, {11}, {4, 2}, {0}, {0, 2}}
 	limits := []int{0, 1, 2, 3, 5}
 	passesL := []int{0, 1, 2}
 	if tier != "thorough" {
@@ -178,6 +179,21 @@ func gen(r *vh.Rand, tier string) []string {
 			}
 		}
 	}
+	// files without entries (empty / header-only / blank-only by the end-of-file layout): both paths
+	// must end the same way
+	for _, kind := range a08.HTTPKinds {
+		for _, ch := range [][]int{nil, {1}, {0}} {
+			for _, lp := range [][2]int{{0, 0}, {0, 1}, {0, 2}, {3, 0}, {2, 2}} {
+				for eof := 0; eof < a08.EOFLayouts; eof++ {
+					cancel := "-"
+					if lp[0] == 0 && lp[1] == 0 {
+						cancel = "1"
+					}
+					out = append(out, fmt.Sprintf("pair %s %d %d - %s %s %d", kind, lp[0], lp[1], joinInts(ch), cancel, eof))
+				}
+			}
+		}
+	}
 	extra := 100
 	if tier == "thorough" {
 		extra = 3000
@@ -191,7 +207,7 @@ func gen(r *vh.Rand, tier string) []string {
 		}
 		var ch []int
 		for j := r.Intn(4); j > 0; j-- {
-			ch = append(ch, r.PickInt([]int{1, 2, 3, 4, 5, 11}))
+			ch = append(ch, r.PickInt([]int{0, 1, 2, 3, 4, 5, 11}))
 		}
 		add(kind, r.PickInt([]int{0, 0, 1, 2, 3, 5, 9, 17}), r.PickInt([]int{0, 0, 1, 2, 3, 4}), tags, ch)
 	}
